@@ -1547,8 +1547,16 @@ class Evaluator:
         if bc is not None and bc.is_property(name):
             p = bc.resolve(name)
             qn = p.qualname
+            overridden = False
+            if base[0] == "attr":
+                # the receiver is a field of declared type bc: the object held there may be of a subclass that defines the property differently
+                # (IRelationLink.x read on a MultiRelationLink) -- then the declared class's body is not what runs
+                try:
+                    overridden = any(name in k_.properties and k_.resolve(name) is not p for k_ in self.model.subclasses(bc))
+                except Exception:
+                    overridden = False
             if (fr.depth < self.max_depth and qn not in self.opaque and "abstractmethod" not in p.decorators
-                    and not _has_loop(p.node)):
+                    and not _has_loop(p.node) and not overridden):
                 try:
                     v = self.inline(p, {}, base, bc, fr)
                     return v
@@ -2367,6 +2375,13 @@ def subst(t, mapping: Dict[Term, Term]):
         if ia is not None and ib is not None and 0 <= ib <= 64:
             return lin({}, Fraction(ia << ib if k == "lshift" else ia >> ib))
         return (k, a, b)
+    if k == "pow" and len(t) == 3:
+        a, b = subst(t[1], mapping), subst(t[2], mapping)
+        na, nb = number(a), number(b)
+        # closed powers with a small whole exponent (2 ** flag)
+        if na is not None and nb is not None and nb.denominator == 1 and 0 <= nb <= 64:
+            return lin({}, na ** int(nb))
+        return ("pow", a, b)
     if k == "sub":
         base, idx = subst(t[1], mapping), subst(t[2], mapping)
         b0 = _plain_display(base)
@@ -2398,6 +2413,11 @@ def subst(t, mapping: Dict[Term, Term]):
             return a
         if r[1] == "bool" and _int_const(a) is not None:
             return TRUE if _int_const(a) != 0 else FALSE
+
+    if k == "call" and r[1] == "len" and len(r[2]) == 1 and not r[3]:
+        d0 = _plain_display(r[2][0])
+        if d0[0] in ("list", "tuple") and not any(isinstance(x, tuple) and x and x[0] == "star" for x in d0[1]):
+            return lin({}, Fraction(len(d0[1])))
 
     def _closed_key(x):
         return isinstance(x, tuple) and x and (x[0] in ("enum", "const") or number(x) is not None)
